@@ -49,6 +49,18 @@ type PState struct {
 	// canon maps every `len(param)` call to one representative per parameter: the length
 	// of a slice parameter never changes, so all such calls are one value (shared, read-only)
 	canon map[ssa.Value]ssa.Value
+	// PATH inlining of new helper functions (Ctx.IsNew): parameter bindings, results of the
+	// calls already walked through, and the return stack
+	params  map[*ssa.Parameter]ssa.Value
+	callres map[*ssa.Call][]ssa.Value
+	stack   []inlFrame
+}
+
+type inlFrame struct {
+	call   *ssa.Call
+	block  *ssa.BasicBlock // caller block to resume
+	idx    int             // index of the instruction after the call
+	visits map[*ssa.BasicBlock]int
 }
 
 func newPState() *PState {
@@ -78,6 +90,19 @@ func (p *PState) clone() *PState {
 	q.rels = append([]Rel(nil), p.rels...)
 	q.trace = append([]*ssa.BasicBlock(nil), p.trace...)
 	q.canon = p.canon
+	if len(p.params) > 0 {
+		q.params = make(map[*ssa.Parameter]ssa.Value, len(p.params))
+		for k, v := range p.params {
+			q.params[k] = v
+		}
+	}
+	if len(p.callres) > 0 {
+		q.callres = make(map[*ssa.Call][]ssa.Value, len(p.callres))
+		for k, v := range p.callres {
+			q.callres[k] = v
+		}
+	}
+	q.stack = append([]inlFrame(nil), p.stack...)
 	if p.U != nil {
 		q.U = p.U.Clone()
 	}
@@ -101,6 +126,11 @@ type Walker struct {
 	// times (loop back edge).
 	Revisit func(p *PState, b *ssa.BasicBlock)
 
+	// NoInline disables stepping into new helper functions (Ctx.IsNew).
+	NoInline bool
+	// EnterInline is called before the walker steps into a new helper function (again),
+	// while the facts about the helper's values from a previous walk are still present.
+	EnterInline func(p *PState, callee *ssa.Function)
 	// PhiAssign is called when a block is entered along an edge, with its φ-nodes and the
 	// (resolved) incoming values, before the assignment takes effect.
 	PhiAssign func(p *PState, phis []*ssa.Phi, vals []ssa.Value)
@@ -286,7 +316,17 @@ func (w *Walker) lenCanon() map[ssa.Value]ssa.Value {
 }
 
 func (w *Walker) walk(b, pred *ssa.BasicBlock, p *PState) {
+	w.walkFrom(b, pred, p, 0)
+}
+
+// walkFrom walks block b starting at instruction index start; start > 0 resumes a caller
+// block after an inlined helper call returned (no visit accounting, no φ transfer).
+func (w *Walker) walkFrom(b, pred *ssa.BasicBlock, p *PState, start int) {
 	if w.Overflow {
+		return
+	}
+	if start > 0 {
+		w.instrs(b, p, start)
 		return
 	}
 	if b == w.Fn.Recover {
@@ -379,11 +419,57 @@ func (w *Walker) walk(b, pred *ssa.BasicBlock, p *PState) {
 			delete(p.facts, ph)
 		}
 	}
-	for _, ins := range b.Instrs {
+	w.instrs(b, p, 0)
+}
+
+func (w *Walker) instrs(b *ssa.BasicBlock, p *PState, start int) {
+	for i := start; i < len(b.Instrs); i++ {
+		ins := b.Instrs[i]
 		w.steps++
 		if w.steps > w.MaxSteps {
 			w.Overflow = true
 			return
+		}
+		if call, ok := ins.(*ssa.Call); ok && !w.NoInline {
+			if cal := call.Call.StaticCallee(); cal != nil && w.C.IsNew(cal) && len(p.stack) < 4 && !onStack(p, cal) && len(cal.Params) == len(call.Call.Args) {
+				// step into the helper: bind parameters, forget what a previous walk through it established
+				if p.params == nil {
+					p.params = map[*ssa.Parameter]ssa.Value{}
+				}
+				for j, prm := range cal.Params {
+					p.params[prm] = p.Resolve(call.Call.Args[j])
+				}
+				if w.EnterInline != nil {
+					w.EnterInline(p, cal)
+				}
+				for v := range p.facts {
+					if v.Parent() == cal {
+						if _, isParam := v.(*ssa.Parameter); !isParam {
+							delete(p.facts, v)
+						}
+					}
+				}
+				for ph := range p.phis {
+					if ph.Parent() == cal {
+						delete(p.phis, ph)
+					}
+				}
+				for a := range p.allocs {
+					if a.Parent() == cal {
+						delete(p.allocs, a)
+					}
+				}
+				saved := map[*ssa.BasicBlock]int{}
+				for _, cb := range cal.Blocks {
+					if n, ok := p.visits[cb]; ok {
+						saved[cb] = n
+						delete(p.visits, cb)
+					}
+				}
+				p.stack = append(p.stack, inlFrame{call: call, block: b, idx: i + 1, visits: saved})
+				w.walk(cal.Blocks[0], nil, p)
+				return
+			}
 		}
 		switch x := ins.(type) {
 		case *ssa.Phi:
@@ -426,6 +512,23 @@ func (w *Walker) walk(b, pred *ssa.BasicBlock, p *PState) {
 			w.walk(b.Succs[0], b, p)
 			return
 		case *ssa.Return:
+			if n := len(p.stack); n > 0 && p.stack[n-1].call.Call.StaticCallee() == b.Parent() {
+				fr := p.stack[n-1]
+				p.stack = p.stack[:n-1]
+				rs := make([]ssa.Value, len(x.Results))
+				for j, rv := range x.Results {
+					rs[j] = p.Resolve(rv)
+				}
+				if p.callres == nil {
+					p.callres = map[*ssa.Call][]ssa.Value{}
+				}
+				p.callres[fr.call] = rs
+				for cb, nv := range fr.visits {
+					p.visits[cb] = nv
+				}
+				w.walkFrom(fr.block, nil, p, fr.idx)
+				return
+			}
 			w.Paths++
 			if w.Exit != nil {
 				w.Exit(p, x)
@@ -450,6 +553,26 @@ func (p *PState) Resolve(v ssa.Value) ssa.Value {
 			return cv
 		}
 		switch x := v.(type) {
+		case *ssa.Parameter:
+			if r, ok := p.params[x]; ok && r != v {
+				v = r
+				continue
+			}
+			return v
+		case *ssa.Call:
+			if rs, ok := p.callres[x]; ok && len(rs) == 1 {
+				v = rs[0]
+				continue
+			}
+			return v
+		case *ssa.Extract:
+			if call, isCall := x.Tuple.(*ssa.Call); isCall {
+				if rs, ok := p.callres[call]; ok && x.Index < len(rs) {
+					v = rs[x.Index]
+					continue
+				}
+			}
+			return v
 		case *ssa.Phi:
 			if r, ok := p.phis[x]; ok {
 				v = r
@@ -918,7 +1041,7 @@ func (w *Walker) applyCmp(p *PState, xv ssa.Value, op token.Token, yv ssa.Value,
 	}
 	x, y := p.Resolve(xv), p.Resolve(yv)
 	// put the "subject" left, the constant/sentinel right
-	if isNilConst(x) || isGlobalVal(x) && !isGlobalVal(y) {
+	if isNilConst(x) || isGlobalVal(x) && !isGlobalVal(y) && !isNilConst(y) {
 		x, y = y, x
 		op = flipOp(op)
 	} else if _, ok := x.(*ssa.Const); ok {
@@ -932,7 +1055,7 @@ func (w *Walker) applyCmp(p *PState, xv ssa.Value, op token.Token, yv ssa.Value,
 		f := p.facts[x]
 		switch op {
 		case token.EQL:
-			if f.nilK == 2 || f.eq != nil {
+			if f.nilK == 2 || f.eq != nil || p.NonNil(x) {
 				return false
 			}
 			f.nilK = 1
@@ -1216,4 +1339,13 @@ func sortedKeys(m map[string]bool) []string {
 	}
 	sort.Strings(r)
 	return r
+}
+
+func onStack(p *PState, fn *ssa.Function) bool {
+	for _, fr := range p.stack {
+		if fr.call.Call.StaticCallee() == fn {
+			return true
+		}
+	}
+	return false
 }
